@@ -494,6 +494,36 @@ def h_dmet_exact(env, variants, q=0, spin=0, solver="fci", exact=True, system="H
     env.check_true(max(es) - min(es) < 1e-7, f"DMET[{solver}] energy is the same for {variants}", detail=str(es))
 
 
+def h_dmet_count(env, starts, solver="fci"):
+    """AUXILIARY concrete shape (no solver role; numpy/scipy/PySCF numerics end to end): "always ends with fragment electron
+    numbers summing to the total" over the documented option initial_chemical_potential - a run that RETURNS reports a
+    chemical potential at which the fragment electron numbers sum to the total (1e-4) and the energy found from the default
+    start (1e-6); a root search that cannot converge must raise instead of returning"""
+    from tangelo import SecondQuantizedMolecule
+    from tangelo.problem_decomposition import DMETProblemDecomposition
+    from symx import shim
+    xyz = [("H", (0., 0., 0.)), ("H", (0., 0., 0.8)), ("H", (0., 0.3, 1.9)), ("H", (0.1, 0., 2.8))]
+    with shim.concrete_mode():
+        mol = SecondQuantizedMolecule(xyz, q=0, spin=0, basis="sto-3g")
+        e_ref = None
+        for mu0 in starts:
+            d = DMETProblemDecomposition({"molecule": mol, "fragment_atoms": [1, 1, 1, 1], "fragment_solvers": solver, "verbose": False,
+                                          "initial_chemical_potential": mu0})
+            d.build()
+            try:
+                e = float(d.simulate())
+            except Exception as err:        # an honest refusal
+                env.check_true(mu0 != 0.0, f"DMET[{solver}] default start converges", detail=f"{type(err).__name__}: {err}"[:200])
+                continue
+            dn = float(abs(d._oneshot_loop(d.chemical_potential)))
+            env.check_true(dn < 1e-4, f"DMET[{solver}] single-atom fragments, initial_chemical_potential={mu0}: a run that returns has fragment "
+                                      f"electron numbers summing to the total", detail=f"difference {dn} at mu={d.chemical_potential}")
+            if e_ref is None:
+                e_ref = e
+            env.check_true(abs(e - e_ref) < 1e-6, f"DMET[{solver}] initial_chemical_potential={mu0}: energy == energy from the default start",
+                           detail=f"{e} vs {e_ref}")
+
+
 def shapes(tier, seed):
     rnd = random.Random(seed)
     thorough = tier == "thorough"
@@ -518,6 +548,7 @@ def shapes(tier, seed):
     # two electrons only: the bath of a half is one orbital, fragment + bath is NOT the whole space -> relabelling invariance only
     out.append(Shape("aux/dmet_exact/NaH-ecp/fci", h_dmet_exact, dict(variants=[[2], [[0, 1]], [[1, 0]]], system="NaH-ecp")))
     out.append(Shape("aux/dmet_relabel/H4-dication/fci", h_dmet_exact, dict(variants=halves[:3], q=2, exact=False)))
+    out.append(Shape("aux/dmet_count/H4-atoms/fci", h_dmet_count, dict(starts=(0.0, 0.5, 2.0, -3.0) if not thorough else (0.0, 0.5, 2.0, -3.0, 0.05, -0.4, 10.0))))
     out.append(Shape("canary/dmet/reorder", h_dmet_reorder, dict(nested=[[1, 2], [0, 3]], canary=True), canary=True))
     n = len(GEOM7)
     # ---- (a) fixed core
